@@ -252,7 +252,10 @@ func loadEnvInternal(env map[string]string, prefix string, prv reflect.Value) er
 
 		case rt.Elem().Kind() == reflect.Struct:
 			if ev, ok := env[prefix]; ok && ev == "" { // special case: empty list
-				prv.Elem().Set(reflect.MakeSlice(prv.Elem().Type(), 0, 0))
+				if prv.IsNil() {
+					prv.Set(reflect.New(rt))
+				}
+				prv.Elem().Set(reflect.MakeSlice(rt, 0, 0))
 			} else {
 				for i := 0; ; i++ {
 					itemPrefix := prefix + "_" + strconv.FormatInt(int64(i), 10)
